@@ -267,7 +267,7 @@ PROPS["C14"] = drive_plan("exploration", "c14", ["--sizes", "1,2,30,120"], ["--s
                                        "embeddings are unique per put, so a self-query must return its own frame at distance <= 1e-6"])
 
 
-PROPS["C24"] = drive_plan("exploration", "c24", ["--cases", 12], ["--cases", 250],
+PROPS["C24"] = drive_plan("exploration", "c24", ["--cases", 12], ["--cases", 80],
                           assumptions=["capacity is compared with absolute payload offsets (the code's and the repository test's definition)",
                                        "a history in which the log grows is re-baselined as inconclusive rather than judged"])
 PROPS["C25"] = drive_plan("exploration", "c25", ["--cases", 12], ["--cases", 300],
